@@ -387,6 +387,12 @@ def s_constant_cache(ctx, as_list=False):
     ctx.check(f"C12.builder.constant_cache.{tag}.first_call_creates_initializer_with_the_value",
               len(made) >= 1 and r1 is made[0] and (made[0].fields["const_value"].fields["pyvalue"] is a1 or
                                                     (as_list and made[0].fields["const_value"].fields["pyvalue"] == [v1])), CL_CACHE)
+    if d1 is None and made:
+        from pyvc.values import SFloat
+        got = made[0].fields["const_value"].fields["dtype"]
+        want = {SBool: (None, ir.DataType.BOOL), SInt: (ir.DataType.INT64,), SFloat: (ir.DataType.FLOAT,)}[type(v1)]
+        ctx.check(f"C12.builder.constant.{tag}.default_dtype_is_INT64_FLOAT_or_BOOL_by_python_type", got in want,
+                  "C12: 'otherwise INT64, FLOAT or BOOL by Python type' (bool is a subclass of int: it must not become INT64)")
     if r2 is r1:
         ctx.cover(f"constant_cache.{tag}.hit")
         # effective dtype of both requests (as the code computes the default) must agree for a hit
